@@ -85,6 +85,7 @@ struct Cell { // race shadow for one 8-byte word
   uint32_t clk[MAXT][4];
   uint8_t mask[MAXT][4];
   uint8_t has_atomic;
+  void* pc[MAXT][4];
 };
 
 struct Head {
@@ -172,6 +173,7 @@ struct Global {
 };
 
 static Global G;
+static bool g_trace = false;
 static thread_local Thread* self = nullptr;
 static pthread_key_t exit_key;
 
@@ -268,6 +270,8 @@ static void heap_free(void* p) {
     race_access(t, (uintptr_t)p, rounded, K_PW, __builtin_return_address(0), true);
     loc_reset_range((uintptr_t)p, rounded);
   }
+  if (g_trace)
+    fprintf(stderr, "TRACE step=%llu T%d free %p size=%zu\n", (unsigned long long)G.stamp, t ? t->id : -1, p, size);
   hlock();
   memset(H.state + off / UNIT, H_FREED, rounded / UNIT);
   H.sizes[off / UNIT] = 0;
@@ -309,8 +313,12 @@ uint64_t heap_live_blocks_since(uint64_t mark) {
 // ------------------------------------------------------------------------------------------------ violations
 void report(const char* kind, const char* fmt, ...) {
   G.viol.count++;
-  if (G.viol.set)
-    return;
+  if (G.viol.set) {
+    // a heap error is the stronger witness: it replaces an earlier race report of the same execution
+    bool heap_kind = !strcmp(kind, "use-after-free") || !strcmp(kind, "double-free") || !strcmp(kind, "wild-access");
+    if (!(heap_kind && !strncmp(G.viol.kind, "race", 4)))
+      return;
+  }
   G.viol.set = true;
   snprintf(G.viol.kind, sizeof G.viol.kind, "%s", kind);
   va_list ap;
@@ -768,6 +776,7 @@ const Stats& stats() {
   G.st.stale_sites = n;
   return G.st;
 }
+void set_trace(bool on) { g_trace = on; }
 void set_context(const char* scenario, const char* config, uint64_t seed, uint64_t exec_index) {
   snprintf(G.scenario, sizeof G.scenario, "%s", scenario);
   snprintf(G.config, sizeof G.config, "%s", config);
@@ -889,16 +898,24 @@ static inline void race_word(Thread* t, uintptr_t word, uint8_t mask, int kind, 
           continue;
         uint32_t ck = c->clk[u][k];
         if (ck && (c->mask[u][k] & mask) && ck > t->vc.c[u]) {
-          bool atomic_involved = k >= K_AR;
-          report(is_free ? (atomic_involved ? "race-free-vs-atomic" : "race-free") : "race",
-                 "%s%s by thread %d at %p (pc %p) is unordered with earlier %s by thread %d (clock %u > seen %u)",
-                 is_free ? "free / " : "", kind_name(kind), t->id, (void*)word, pc, kind_name(k), u, ck, t->vc.c[u]);
+          // Races in which one side is an atomic operation (atomic access vs. the non-atomic initialisation or the
+          // deallocation of the atomic object) are outside C03's wording ("plain (non-atomic) object"): they are
+          // counted as diagnostics, not reported.
+          if (k >= K_AR || kind >= K_AR) {
+            G.st.diag_atomic_races++;
+            continue;
+          }
+          report(is_free ? "race-free" : "race",
+                 "%s%s by thread %d at %p (pc %p) is unordered with earlier %s by thread %d at pc %p (clock %u > seen %u)",
+                 is_free ? "free / " : "", kind_name(kind), t->id, (void*)word, pc, kind_name(k), u, c->pc[u][k], ck,
+                 t->vc.c[u]);
         }
       }
     }
   }
   c->clk[t->id][kind] = t->vc.c[t->id];
   c->mask[t->id][kind] = mask;
+  c->pc[t->id][kind] = pc;
   if (kind >= K_AR)
     c->has_atomic = 1;
 }
@@ -1287,6 +1304,12 @@ static uint64_t atomic_op(AOp op, uintptr_t addr, int size, uint64_t operand, ui
   }
   if (sc)
     fence_sc(t);
+  if (g_trace) {
+    static const char* opn[] = {"load", "store", "xchg", "add", "sub", "and", "or", "xor", "nand", "cas_s", "cas_w"};
+    fprintf(stderr, "TRACE step=%llu T%d %s%d %p operand=%llx result=%llx ok=%d mo=%d clk=%u pc=%p\n",
+            (unsigned long long)G.stamp, t->id, opn[op], size * 8, (void*)addr, (unsigned long long)operand,
+            (unsigned long long)result, (int)*ok, mo, t->vc.c[t->id], pc);
+  }
   return result;
 }
 
